@@ -68,6 +68,7 @@ class FullCheck(BaseCheck):
               'max_queue_len': rng.choice([1, 4, 2 ** 31 - 1])}
     Tset = rng.choice([[0.05, 0.2, 1.0], [1.0], [0.005, 0.03], [2.0, 10.0], [0.5, 30.0]])
     world = [None]
+    forced = {}     # call id -> reply delay the server applies, whatever the seeded policy would say
     stats = {'calls': 0, 'values': 0, 'errors': 0, 'timeouts': 0, 'stale_replies': 0, 'server_requests': 0,
              'faults_fired': 0, 'late_after_deadline': 0, 'early_timeouts': 0}
 
@@ -89,6 +90,9 @@ class FullCheck(BaseCheck):
         w = world[0]
         cid = cid_of(req)
         rec = w.calls[cid] if (w is not None and cid is not None and cid < len(w.calls)) else None
+        if cid in forced:
+          req['policy_class'] = 'forced'
+          return {'delay': forced[cid]}
         k = rng.random()
         act = {}
         if rec is None or k < 0.45:
@@ -187,6 +191,11 @@ class FullCheck(BaseCheck):
         s_.sim.send_limit = lim
     if open_timeout == 0 or first_mode != 'up' or conn_lat > 0.1:
       classes.add('slow-or-async-open')
+    if idx % 11 == 4:
+      # debug logging through a handler that yields (a socket / syslog handler under gevent):
+      # every log call inside the library is a point where other greenlets run
+      env.yielding_logs()
+      classes.add('yielding-log-handler')
 
     # ---------------------------------------------------------------- schedule
     horizon = min(max(Tset) * 3 + 2, 40.0)
@@ -276,6 +285,30 @@ class FullCheck(BaseCheck):
         s = rng.choice(w.servers)
         w.ss.join(s.sim.host, s.sim.port)
         classes.add('join')
+    if scripted and pool is not None and w.ss.truth and bias.get('dead_waiter_drain') and \
+        rng.random() < bias['dead_waiter_drain']:
+      # the last member's pool is saturated by slow calls, further calls expire while they wait in its
+      # queue, the member leaves with the slow calls outstanding, and then they complete
+      classes.add('drain-with-dead-waiters')
+      keep = rng.choice(sorted(w.ss.truth))
+      for h, p in sorted(w.ss.truth):
+        if (h, p) != keep:
+          w.ss.leave(h, p)
+      for s in w.servers:
+        s.sim.mode = 'up'
+      env.advance(3.0)
+      for _k in range(pool['max_watermark']):
+        cid = len(w.calls)
+        forced[cid] = 0.5
+        w.call('echo', ('c%d-%d' % (cid, rng.getrandbits(20)),), timeout=2.0)
+      env.advance(0.01)
+      for _k in range(min(pool['max_queue_len'], rng.choice([1, 2]))):
+        cid = len(w.calls)
+        forced[cid] = 0.001
+        w.call('echo', ('c%d-%d' % (cid, rng.getrandbits(20)),), timeout=0.05)
+      env.advance(0.1)
+      w.ss.leave(*keep)
+      env.advance(1.0)
     # quiet tail: no stimulus, long enough for every deadline, late reply and retry
     tmax = max([r['T'] for r in w.calls] or [1.0])
     for s in w.servers:
